@@ -32,9 +32,25 @@ impl Sink {
     pub fn write_str(&mut self, s: &str) -> (r: Result<(), FmtError>)
         ensures r is Ok ==> final(self).text() == old(self).text() + s@,
     { unimplemented!() }
+    /// fmt::Write::write_char
+    #[verifier::external_body]
+    pub fn write_char(&mut self, c: char) -> (r: Result<(), FmtError>)
+        ensures r is Ok ==> final(self).text() == old(self).text().push(c),
+    { unimplemented!() }
     /// `write!(out, "{}", v)` for an integer
     #[verifier::external_body]
     pub fn write_decimal(&mut self, v: Ghost<int>) -> (r: Result<(), FmtError>)
         ensures r is Ok ==> final(self).text() == old(self).text() + decimal_text(v@),
     { unimplemented!() }
 }
+/// a value to serialize (`&T where T: Serialize`), opaque
+#[verifier::external_body]
+pub struct SerVal { _p: () }
+/// `self.serialize_seq(len)` (its block prologue is under contract as `YamlSerializer::serialize_seq#block_open`)
+#[verifier::external_body]
+fn seq_open<'a, 'b>(ser: &'a mut YamlSerializer<'b>, len: Option<usize>) -> (r: Result<SeqSer<'a, 'b>, SerError>)
+{ unimplemented!() }
+/// `SerializeSeq::serialize_element(&mut seq, value)` (generic over `T: Serialize`; outside this unit)
+#[verifier::external_body]
+fn seq_element<'a, 'b>(seq: &mut SeqSer<'a, 'b>, value: SerVal) -> (r: Result<(), SerError>)
+{ unimplemented!() }
